@@ -498,7 +498,7 @@ Qed.
     the end: the original was pulled from after its end) *)
 Example clone_properties_apply :
   let e := {| e_kind := KSlice; e_adaptor := ANone; e_len := 5; e_start := 0; e_end := 0; e_hint := HExact;
-              e_owning := false; e_mode := Checked; e_crash := None |} in
+              e_owning := false; e_mode := Checked; e_crash := None; e_gap := fun _ => false |} in
   let progs := fun t => match t with 0%nat => [Next NIdVal; Chunk 2 1] | 1%nat => [Chunk 4 4; Next NVal] | _ => [] end in
   let s := [0; 1; 0; 1; 0; 0; 1; 1]%nat in
   let c2 := exec e (init (fun _ => [Chunk 2 2])) [0; 0]%nat in
